@@ -1408,9 +1408,12 @@ class UnitDatabase(Singleton):
         """
         if exp == 1 or from_unit == to_unit:
             return self.Convert(quantity_type, from_unit, to_unit, value)
-        factor = self.Convert(quantity_type, from_unit, to_unit, 1.0) - self.Convert(
-            quantity_type, from_unit, to_unit, 0.0
-        )
+        # Note: the scale of each unit is calculated in its own conversion to the base unit (the
+        # difference of two converted values would be cancelled out by the offset of units such
+        # as bar(g) when the scales are very different).
+        from_tobase = self.GetInfo(quantity_type, from_unit, fix_unknown=True).tobase
+        to_tobase = self.GetInfo(quantity_type, to_unit, fix_unknown=True).tobase
+        factor = (from_tobase(1.0) - from_tobase(0.0)) / (to_tobase(1.0) - to_tobase(0.0))
         scale = factor**exp
         if isinstance(value, (list, tuple)):
             return type(value)(v * scale for v in value)
